@@ -324,3 +324,10 @@ B("c11-tsp-done-ne", "C11", "C11.R6", (R + "tsp/env.py", "TSP.step", "expr", "ne
 T("c09-twin-maze-logical-not", "C09", (R + "maze/env.py", "Maze.step", "expr", "~jnp.any(action_mask)", "jnp.logical_not(action_mask.any())"))
 T("c11-twin-tsp-ge", "C11", (R + "tsp/env.py", "TSP.step", "expr", "next_state.num_visited == self.num_cities", "next_state.num_visited >= self.num_cities"))
 B("c05-jobshop-penalty-and", "C05", "C05.R4", (P + "job_shop/env.py", "JobShop.step", "expr", "invalid | all_machines_idle", "invalid & all_machines_idle", 2))
+
+# ---------------------------------------------------------------- used-once flags (C06.R7 / C04.R10)
+B("c06-binpack-mask-or", "C06", "C06.R7", (P + "bin_pack/env.py", "BinPack._get_action_mask", "expr", "~item_placed & item_mask & ems_mask & item_fits_in_ems", "~item_placed | item_mask & ems_mask & item_fits_in_ems"))
+B("c06-binpack-lost-negation", "C06", "C06.R7", (P + "bin_pack/env.py", "BinPack._get_action_mask", "expr", "~item_placed", "item_placed"))
+B("c04-flatpack-legal-or", "C04", "C04.R10", (P + "flat_pack/env.py", "FlatPack._is_legal_action", "expr", "~placed_blocks[block_idx] & (jnp.max(placed_mask) <= 1)", "~placed_blocks[block_idx] | (jnp.max(placed_mask) <= 1)"))
+B("c06-tsp-mask-not-negated", "C06", "C06.R7", (R + "tsp/env.py", "TSP._state_to_observation", "expr", "~state.visited_mask", "state.visited_mask"))
+T("c06-twin-binpack-logical", "C06", (P + "bin_pack/env.py", "BinPack._get_action_mask", "expr", "~item_placed & item_mask & ems_mask & item_fits_in_ems", "jnp.logical_and(jnp.logical_not(item_placed), item_mask & ems_mask & item_fits_in_ems)"))
